@@ -10,6 +10,9 @@ git -C ${VERIF_REPO:-/repo} apply $V/seeded/$name/patch.diff || { echo "$name: p
 for c in "$@"; do
   out=$(./check $c 2>&1); rc=$?
   echo "$name vs $c: rc=$rc $(echo "$out" | grep -E 'VIOLATION|agree|KNOWN' | tail -1)"
+  # keep the replay of this seed (the input on which the change showed): candidates for the regression corpus
+  rp=$(echo "$out" | grep -oE 'replay=[^ ]+' | tail -1 | cut -d= -f2)
+  if [ -n "$SEED_REPLAY_DIR" ] && [ -n "$rp" ] && [ -f "$rp" ]; then cp "$rp" "$SEED_REPLAY_DIR/$name.$c.json"; fi
 done
 git -C ${VERIF_REPO:-/repo} checkout -- .
 rm -rf evidence && mv "$bak/evidence" evidence && rmdir "$bak"
